@@ -160,6 +160,11 @@ func Mod(a, b Num) ([]Num, error) {
 func Pow(a, b Num) (approx float64, exact float64, hasExact bool) {
 	x, y := a.AsFloat(), b.AsFloat()
 	approx = math.Pow(x, y)
+	if x == 0 && y == y {
+		// ±0 ^ y is fully defined by IEEE 754 pow (sign kept for odd y); the
+		// big-integer route below cannot carry a signed zero.
+		return approx, approx, true
+	}
 	if x == math.Trunc(x) && y == math.Trunc(y) && y >= 0 && y <= 1100 && !math.IsInf(x, 0) && math.Abs(x) < 1e18 {
 		xi, _ := new(big.Float).SetFloat64(x).Int(nil)
 		p := new(big.Int).Exp(xi, big.NewInt(int64(y)), nil)
